@@ -276,13 +276,44 @@ func init() {
 
 	// ---- encoding/binary -------------------------------------------------------------------------
 	regModel("encoding/binary.Write", func(x *Exec, fr *Frame, st *State, c *ssa.CallCommon, args []Val, rt types.Type, pos token.Pos) Val {
-		x.useModel("binary.Write(w,order,fixed-size integer) appends size bytes to a *bytes.Buffer; contents unconstrained")
+		x.useModel("binary.Write(w,order,fixed-size integer) appends the value's bytes in the given order to a *bytes.Buffer (unconstrained bytes when the order is not a known constant)")
 		w, data := args[0], args[2]
 		if w.Dyn != nil && isBytesBuffer(deref(w.Dyn.Typ)) && data.Dyn != nil && isInteger(data.Dyn.Typ) {
 			bits, _, _ := intInfo(data.Dyn.Typ)
 			loc := bufLoc(x, *w.Dyn)
 			cur := x.readLoc(st, loc)
 			nl := x.define("blen", "Int", fmt.Sprintf("(+ %s %d)", cur.L[0], bits/8))
+			// byte order: the dynamic type of the order argument (binary.bigEndian / littleEndian)
+			order := ""
+			if args[1].Dyn != nil {
+				switch ts := args[1].Dyn.Typ.String(); {
+				case strings.HasSuffix(ts, "bigEndian"):
+					order = "be"
+				case strings.HasSuffix(ts, "littleEndian"):
+					order = "le"
+				}
+			}
+			if order != "" && data.Dyn != nil && len(data.Dyn.L) == 1 {
+				// exact contents: the value's bytes in the given order (two's complement for
+				// negative values: v mod 2^bits)
+				n := bits / 8
+				v := fmt.Sprintf("(mod %s %s)", data.Dyn.L[0], pow2str(bits))
+				ndT := cur.L[1]
+				for i := 0; i < n; i++ {
+					sh := (n - 1 - i) * 8
+					if order == "le" {
+						sh = i * 8
+					}
+					byteV := fmt.Sprintf("(mod (div %s %s) 256)", v, pow2str(sh))
+					if n == 1 {
+						byteV = v
+					}
+					ndT = fmt.Sprintf("(store %s (+ %s %d) %s)", ndT, cur.L[0], i, byteV)
+				}
+				nd := x.define("bdat", "(Array Int Int)", ndT)
+				x.writeLoc(st, loc, Val{Typ: loc.T, L: []string{nl, nd}})
+				return nilErr()
+			}
 			nd := x.fresh("bdat", "(Array Int Int)")
 			k := "k!" + fmt.Sprint(x.n)
 			x.assertDefQ(fmt.Sprintf("(forall ((%s Int)) (! (=> (< %s %s) (= (select %s %s) (select %s %s))) :pattern ((select %s %s))))", k, k, cur.L[0], nd, k, cur.L[1], k, nd, k))
